@@ -122,8 +122,10 @@ func (g *c07Gen) program(steps int) *zr.Program {
 			zr.ExprStmt{E: zr.MCall{Recv: zr.ThisProp{Prop: "列"}, Chain: []zr.CallPart{{Fn: "后增", Args: []zr.Expr{zr.N("物")}}}}},
 			zr.Set(zr.ThisProp{Prop: "数"}, zr.Bin{Op: "+", L: zr.ThisProp{Prop: "数"}, R: intLit(1)}),
 			zr.Return{E: zr.ThisProp{Prop: "数"}},
-		}}}}
+		}}, {Name: "取列", Body: []zr.Stmt{zr.Return{E: zr.ThisProp{Prop: "列"}}}}}}
 	body = append(body, cls)
+	// a method that hands back what it was given
+	body = append(body, &zr.FuncDef{Name: "原样", Params: []string{"入"}, Body: []zr.Stmt{zr.Return{E: zr.N("入")}}})
 	// initial variables
 	for i := 0; i < 2+r.Intn(2); i++ {
 		e, k := g.collection(3)
@@ -140,7 +142,63 @@ func (g *c07Gen) program(steps int) *zr.Program {
 	for s := 0; s < steps; s++ {
 		var st []zr.Stmt
 		nvars := len(g.vars)
-		switch r.Intn(14) {
+		switch r.Intn(18) {
+		case 14: // assignment whose right-hand side is a call that hands back its receiver
+			dst, ok := g.pickVar("list")
+			if !ok {
+				continue
+			}
+			src, ok := g.pickVar("list")
+			if !ok {
+				continue
+			}
+			m := []string{"后增", "前增"}[r.Intn(2)]
+			st = []zr.Stmt{zr.Set(zr.N(dst.name), zr.MCall{Recv: zr.N(src.name), Chain: []zr.CallPart{{Fn: m, Args: []zr.Expr{g.scalar()}}}})}
+			g.feat["assign-from-receiver-returning-call"] = true
+		case 15: // … a user method that hands back its argument
+			dst, ok := g.pickVar("list", "dict")
+			if !ok {
+				continue
+			}
+			src, ok := g.pickVar(dst.kind)
+			if !ok {
+				continue
+			}
+			if r.Intn(2) == 0 {
+				st = []zr.Stmt{zr.Set(zr.N(dst.name), zr.CallE("原样", zr.N(src.name)))}
+			} else {
+				st = []zr.Stmt{zr.Set(g.path(zr.N(dst.name), 1), zr.CallE("原样", zr.N(src.name)))}
+			}
+			g.feat["assign-from-identity-call"] = true
+		case 16: // … a type method that hands back the object's own list
+			o, ok := g.pickVar("obj")
+			if !ok {
+				continue
+			}
+			dst, ok := g.pickVar("list", "dict")
+			if !ok {
+				continue
+			}
+			call := zr.MCall{Recv: zr.N(o.name), Chain: []zr.CallPart{{Fn: "取列"}}}
+			if dst.kind == "list" && r.Intn(2) == 0 {
+				st = []zr.Stmt{zr.Set(zr.N(dst.name), call)}
+			} else {
+				st = []zr.Stmt{zr.Set(g.path(zr.N(dst.name), 1), call)}
+			}
+			g.feat["assign-from-property-returning-call"] = true
+		case 17: // declaration from such a call
+			src, ok := g.pickVar("list")
+			if !ok {
+				continue
+			}
+			n := g.fresh("己")
+			if r.Intn(2) == 0 {
+				st = []zr.Stmt{zr.LetS(n, zr.MCall{Recv: zr.N(src.name), Chain: []zr.CallPart{{Fn: "后增", Args: []zr.Expr{g.scalar()}}}})}
+			} else {
+				st = []zr.Stmt{zr.LetS(n, zr.CallE("原样", zr.N(src.name)))}
+			}
+			g.vars = append(g.vars, c07Var{n, "list"})
+			g.feat["declare-from-call"] = true
 		case 0: // copy by 令 (设为 or 恒为)
 			src, ok := g.pickVar("list", "dict", "obj")
 			if !ok {
@@ -318,7 +376,7 @@ func (g *c07Gen) program(steps int) *zr.Program {
 }
 
 func checkC07(c *Ctx) {
-	c.rule = "histories: 2-4 variables holding nested lists/dictionaries (depth<=3) and objects of a type with a list property; steps = copies via 令, multi-declaration, =, element assignment of whole collections, copies out of elements and loop variables, property assignment; copies declared with 设为 and 恒为, several names from one literal; mutations through any name at any depth (element/key writes on index paths, in-place 自增/自减 on nested numbers, 后增 前增 左移 右移 交换 写入 移除, object property writes and methods through aliases), literals re-executed in loops; every variable is displayed after every step. Each step may fail (missing path): reference and implementation must then fail alike. Oracle: reference heap model (deep copy on declare/assign/element assign, objects by reference, fresh literals). distinct_nontrivial = distinct (feature set, history length, outcome kind) among histories with at least one copy and one later mutation"
+	c.rule = "histories: 2-4 variables holding nested lists/dictionaries (depth<=3) and objects of a type with a list property; steps = copies via 令, multi-declaration, =, element assignment of whole collections, copies out of elements and loop variables, property assignment, assignments and declarations whose right-hand side is a call that hands back its receiver (后增 / 前增), its argument (a user method) or the object's own list (a type method); copies declared with 设为 and 恒为, several names from one literal; mutations through any name at any depth (element/key writes on index paths, in-place 自增/自减 on nested numbers, 后增 前增 左移 右移 交换 写入 移除, object property writes and methods through aliases), literals re-executed in loops; every variable is displayed after every step. Each step may fail (missing path): reference and implementation must then fail alike. Oracle: reference heap model (deep copy on declare/assign/element assign, objects by reference, fresh literals). distinct_nontrivial = distinct (feature set, history length, outcome kind) among histories with at least one copy and one later mutation"
 	c.assumptions = []string{"mutation through loop variables / method parameters is not generated (U2)", "display is compared atom-wise"}
 	rng := c.Rand("c07")
 	var progs []*zr.Program
